@@ -181,7 +181,7 @@ def shrink_graph(g):
 
 
 # ---- label families and insertion orders (C15 re-runs every property's cases through these) ----
-LABEL_FAMILIES = ["int", "bigint", "int257", "tuple", "frozenset", "str", "char", "mixed", "obj", "neg", "lag"]
+LABEL_FAMILIES = ["int", "bigint", "int257", "tuple", "frozenset", "str", "char", "mixed", "obj", "neg", "lag", "negmix", "twin", "lits"]
 
 
 class NodeObj:
@@ -220,6 +220,18 @@ def labeler(case=None):
         f = lambda v: -(v + 1)  # noqa: E731
     elif fam == "lag":     # (variable, -lag) tuples as the time-series classes use them: ("x", -1) and ("x", -2) hash equal as well
         f = lambda v: ("x", -(v + 1))  # noqa: E731
+    elif fam == "negmix":  # -1,-2,2,3,...,n-1: a negative int label k used as a list index aliases position n+k, which is a label too
+        f = lambda v: -(v + 1) if v < 2 else v  # noqa: E731
+    elif fam == "twin":    # 0,"0",1,"1",...: distinct labels with the same str()
+        f = lambda v: v // 2 if v % 2 == 0 else str(v // 2)  # noqa: E731
+    elif fam == "lits":    # string constants of the library's own source as node labels (envx.literal_labels): constants that are
+        import envx         # not in the committed baseline come first, so a sentinel a change introduces becomes a real label
+        import zlib
+        new, pool = envx.literal_labels()
+        pool = [x for x in pool if " " not in x and len(x) <= 16] or pool
+        off = zlib.crc32(repr(sorted((case or {}).get("g", {}).items()) if isinstance((case or {}).get("g"), dict) else "").encode()) % len(pool)
+        L = len(pool)    # injective for every v: beyond one turn of the pool a "#k" suffix is appended
+        f = lambda v: new[v] if v < len(new) else pool[(off + v) % L] + ("#%d" % ((off + v) // L) if (off + v) // L else "")  # noqa: E731
     elif fam == "mixed":   # unorderable mix of types; includes the falsy labels 0, "" and ()
         f = lambda v: [0, "", (), "s3", 4, ("t", 5), frozenset({6}), "s7"][v] if v < 8 else (("m", v) if v % 2 else "".join(["m", str(v)]))  # noqa: E731
     else:
